@@ -123,6 +123,45 @@ def run(R):
         R.ok("C05.pairs", "bucket-type", "partners of a key are kept in a Vec (joined-file order)", "src/execution/join.rs")
     else:
         R.violation("C05.pairs", "bucket-type", "partners of a key are not kept in an insertion-ordered Vec<Row> (%s)" % rows_ty, ["src/execution/join.rs"])
+    # ---- `*` lists the queried table's columns followed by the joined table's, in definition order
+    R.rule("C05.star", "the joined row's key list is the queried table's keys (with_table_keys) followed by one key per joined column, added in the "
+                       "order of JoinedTableData::column_names (a Vec)")
+    cm = R.need_fn(J + "create_joined_column_mapping")
+    wk = [c for c in cm.calls if short(c.name).endswith("HashMapColumnProvider::with_table_keys")]
+    addk = [c for c in cm.calls if (c.func.get("trait_method") == "add_key") or short(c.name).endswith("::add_key")]
+    okstar = bool(wk) and bool(addk)
+    why = ""
+    if okstar:
+        for c in addk:
+            lp = PR.loop_of(cm, c.bb)
+            if not lp or not cm.dominates(wk[0].bb, c.bb):
+                okstar = False
+                why = "add_key outside a loop or before the queried table's keys"
+                break
+            nxt = [x for x in cm.calls if x.bb in lp[1] and short(x.name).endswith("Iterator>::next")]
+            ts = " ".join((nxt[0].func.get("res_targs") or nxt[0].targs)) if nxt else ""
+            if not nxt or "hash::" in ts or "hash::" in short(nxt[0].name) or "btree" in short(nxt[0].name) or "alloc::string::String" not in ts:
+                okstar = False
+                why = "the joined keys are added while iterating %s" % (ts or "?")
+                break
+            srcs = set()
+            for x in cm.calls:
+                if short(x.name).endswith("IntoIterator>::into_iter") or short(x.name).endswith("slice::<impl [T]>::iter"):
+                    srcs |= set(F.source_fields(cm, x.args[0], depth=8))
+        # per joined column exactly one key
+        if okstar:
+            lp = PR.loop_of(cm, addk[0].bb)
+            nxt = [x for x in cm.calls if x.bb in lp[1] and short(x.name).endswith("Iterator>::next")][0]
+            g5 = PR.discr_guard(cm, nxt, "Some")
+            r5 = count_range(cm, g5[1], {lp[0]}, {c.bb for c in addk}) if g5 else None
+            if r5 != (1, 1):
+                okstar = False
+                why = "%s keys are added per joined column" % (r5,)
+    if okstar:
+        R.ok("C05.star", "create_joined_column_mapping", "queried keys first, then one key per joined column in Vec order", addk[0].loc())
+    else:
+        R.violation("C05.star", "create_joined_column_mapping", "`*` over a join does not list the queried table's columns followed by the joined "
+                                                                  "table's columns in definition order (%s)" % why, [cm.loc()])
     # ---- outer row
     fe = [c for c in ej.calls if short(c.name) == "alloc::vec::from_elem"]
     if len(fe) == 1:
